@@ -703,6 +703,10 @@ err_out_timer:
 				error = errno;
 				goto err_out_timer;
 			}
+		} else if (TP_CTL_ADD == op || 0 != ev->flags) {
+			/* Timer exist and is re-added / enabled with flags:
+			 * remember them, tpt_loop() act on remembered flags. */
+			TPDATA_EV_FL_SET(tp_udata->tpdata, ev->event, ev->flags);
 		}
 
 		tp_udata->tpdata &= ~TPDATA_F_DISABLED;
